@@ -469,6 +469,15 @@ func cmpC20(c hx.Case, impl any, reply map[string]any) hx.Verdict {
 			v.Detail += fmt.Sprintf(" (group %s; model: %v)", g, mAb)
 		}
 	}
+	// the load outcome, one direction: the typed decoding (not modelled) and the order of resolution can only
+	// make the real load fail where the model's succeeds — a load that succeeds where the model reports an
+	// error means the model of the reference resolution (drill-down, walk, kinds) no longer describes the code
+	if st, _ := im["stages"].(map[string]any); st != nil && v.IM {
+		if ml := fmt.Sprint(model["load"]); fmt.Sprint(st["load"]) == "ok" && (ml == "err" || ml == "errMust" || ml == "fuel") {
+			v.IM = false
+			v.Detail = "implementation loads the document, the model's load ends with " + ml
+		}
+	}
 	if f := os.Getenv("C20_MISMATCH"); f != "" && !v.IM {
 		c20Census(f, c, im, reply)
 	}
